@@ -132,3 +132,18 @@ package ext
 //@   assert before WriteBinary#2: wcStep == 3 && len(b) > 0 && sameSlice(arg1, bytestr.StrCRLF)
 //@   ghostset after WriteBinary#2: wcStep = 4
 //@   top-ensures err == nil ==> (len(b) > 0 ==> wcStep == 4) && (len(b) == 0 ==> wcStep == 3)
+
+// ---- C02 (frame slice): header scanning writes only inside the bytes it consumes ----
+// normalizeHeaderValue compacts a folded value in place; everything after the value must stay
+// byte-identical and in place, otherwise what follows the header block (body, pipelined request) moves.
+//@ func normalizeHeaderValue(ov, ob, headerLength) nv, nb, nhl
+//@   props C02
+//@   nosafety
+//@   replay-import github.com/cloudwego/hertz/pkg/protocol
+//@   replay-go buf := []byte("A: b\r\n c\r\n\r\nBODYBODY"); var s HeaderScanner; s.B = buf; for s.Next() {}; if string(buf[len(buf)-8:]) != "BODYBODY" { fmt.Printf("VCGO-VIOLATED scanning a folded header moved the bytes after the header block: buffer is now %q, HLen=%d for a 12-byte block\n", buf, s.HLen) }
+//@   requires sameArray(ov, ob) && off(ov) == off(ob) && len(ov) <= len(ob) && len(ob) <= cap(ob)
+//@   modifies bytes(ov)
+//@   top-ensures len(nv) <= len(ov) && sameArray(nv, ov) && off(nv) == off(ov)
+//@   loop 0:
+//@     invariant 0 <= write && write <= read && read <= length && length == len(ov) && sameArray(nv, ov) && off(nv) == off(ov) && len(nv) == len(ov)
+//@     invariant capOnly(mkslice(arr(ov), off(ov), len(ov)))
